@@ -56,6 +56,10 @@ CHECKS = {
   "held on the observed pairs: verdict and catalog bytes are equal between the canonical rendering of a generated model and its rewritten renderings (random combinations, and exactly one rewriting at each eligible position of small documents), for accepted and for rejected documents, plus newline rewriting of the positive fixtures",
   "trusts the renderer to apply only the rewritings the statement lists at eligible positions (it renders from the model, it never re-parses)",
   "runtime monitoring: metamorphic relation between two executions of the real code (byte equality of verdict and catalog)"),
+ "C07": ("exploration",
+  "held on the observed twins: a model rendered with parts moved into (nested) macros and the same model rendered in place give the same verdict and byte-identical catalog; unused macros change nothing; every cyclic paste digraph up to the bound, undefined and duplicate macros are rejected with a diagnostic within the paste-depth budget",
+  "trusts the renderer's paste extraction (one macro per run of sibling elements a MACRO admits) and the verif-tagged paste-depth counter",
+  "runtime monitoring: metamorphic relation between two executions of the real code, exhaustive enumeration of small paste digraphs"),
 }
 
 def main():
